@@ -20,7 +20,7 @@ EXPLANATION = (
     "arch warning <=> no --arch; length warning <=> unmarked and > 100 parsed lines and no --lines; "
     "LCD warning = timed_out; each reaches both outputs. R5: DEFAULT_ARCHS values are supported and map "
     "back to their ISA; every supported architecture has a row in get_isa_for_arch, a data file with "
-    "matching isa/arch_code header, and appears in --help and the README table."
+    "matching isa/arch_code header, and appears in --help and the README table. R6: the per-line CP values live on the instruction forms and are recomputed by every get_critical_path() call (text report, dict, graph export each ask again): the accumulation must start from a reset on every call (obligation C04-R3, embedded), otherwise the dict shows a multiple of what the text shows."
 )
 NOT_DECIDED = "Digit-level formatting/column layout of every cell for every model (needs the rendered report)."
 ASSUMPTIONS = ["the three model files that are empty in this tree are skipped for header checks (recorded in evidence)"]
@@ -96,16 +96,24 @@ def _r1(ctx):
          recognised=dv is not None and _origin_attr(dv) is not None and t_attr is not None)
     # the CP cell is shown exactly for lines of the critical path
     call = C.calls_to(cv.node, "_get_lcd_cp_ports")
-    cp_guard = bool(call) and pm.match("M_cp if M_ln in M_lines else None", call[0].args[1]) is not None
-    pair("CP cell shown for critical-path lines only", cp_guard, cv.where(call[0]) if call else cv.where(),
+    cp_guard = bool(call) and len(call[0].args) > 1 and pm.match("M_cp if M_ln in M_lines else None", call[0].args[1]) is not None
+    cp_map = False
+    if call and not cp_guard:
+        # the value looked up in a map keyed by the path's line numbers: None for every other line (that the formatter tests
+        # it with `is None` is the cell-presence obligation below)
+        for a_ in call[0].args:
+            if isinstance(a_, ast.Call) and isinstance(a_.func, ast.Attribute) and a_.func.attr == "get" and isinstance(a_.func.value, ast.Name):
+                for d_ in C.assigns_to(cv.node, a_.func.value.id):
+                    if isinstance(d_, ast.Assign) and isinstance(d_.value, ast.DictComp) and "latency_cp" in U(d_.value.value) \
+                            and U(d_.value.key).endswith(".line_number"):
+                        cp_map = True
+    pair("CP cell shown for critical-path lines only", cp_guard or cp_map, cv.where(call[0]) if call else cv.where(),
          "the CP cell must be filled iff the line number is in the critical path's line numbers",
-         recognised=bool(call) and len(call[0].args) > 1)
+         recognised=bool(call) and len(call[0].args) > 1 and pm.match("M_a if M_b else M_c", call[0].args[1]) is not None)
     # --- LCD cell / LatencyLCD
     dv = _dict_value(fd, "LatencyLCD", "LatencyCP")
     text_src = pm.find("M_l = {M_i.line_number: M_lat for M_i, M_lat in M_e['dependencies']}", cv.node)
-    text_use = bool(call) and text_src and U(call[0].args[2]) == "%s.get(%s)" % (
-        U(text_src[0][1]["M_l"]), U(call[0].args[0]).replace("instruction_form.line_number", "line_number"))
-    text_use = bool(call) and bool(text_src) and U(call[0].args[2]).startswith(U(text_src[0][1]["M_l"]) + ".get(")
+    text_use = bool(call) and bool(text_src) and any(U(a_).startswith(U(text_src[0][1]["M_l"]) + ".get(") for a_ in call[0].args)
     if dv is None:
         pair("LCD cell / LatencyLCD", False, fd.where(), "dict has no LatencyLCD")
     else:
@@ -984,6 +992,40 @@ def _r5(ctx):
               ca.where(), "check_arguments no longer rejects unsupported --arch values", ca.qname, "arch validation")
 
 
+def _r6(ctx):
+    """Text and dict are built one after the other from the same KernelDG: each asks get_critical_path() again, so the
+    per-line values it leaves on the shared instruction forms must not depend on how often it ran (C04-R3b)."""
+    from . import c04
+    from .. import report as _report
+    from ..srcmodel import AnalysisError
+    ctx.rule("R6", "asking for the critical path again (text, then dict, then graph export) gives the same per-line values (C04-R3)")
+    sub = _report.Ctx("C04", ctx.repo, ctx.tier, ctx.data)
+    err = None
+    try:
+        c04.run(sub)
+    except AnalysisError as e:
+        err = e
+    n = 0
+    for fd in sub.findings:
+        if fd.rule == "R3":
+            n += 1
+            ctx.bad("R6", "repeated evaluation (C04-R3): " + fd.construct, fd.where, "the dict (built after the text report from the same graph) "
+                    "shows other CP values than the text: " + fd.detail, fd.scope, fd.construct)
+    for ob in sub.obligations:
+        if ob["rule"] == "R3" and ob["status"] not in ("violated", "not-understood"):
+            new_ob = dict(ob)
+            new_ob["rule"] = "R6"
+            new_ob["instance"] = "C04-R3: " + ob["instance"]
+            ctx.obligations.append(new_ob)
+    for u in getattr(sub, "unknowns", []):
+        if u.startswith("R3 "):
+            ctx.unknown("R6", "repeated evaluation (C04-R3)", ctx.func("KernelDG.get_critical_path").where(), u)
+    if err is not None and not n:
+        ctx.unknown("R6", "repeated evaluation (C04-R3)", ctx.func("KernelDG.get_critical_path").where(), str(err)[:200])
+    ctx.functions |= sub.functions
+    ctx.files |= sub.files
+
+
 def run(ctx):
     C.require_locals(ctx, ctx.func('osaca.inspect'), ['kernel', 'parsed_code', 'args'])
     C.require_locals(ctx, ctx.func('Frontend._user_warnings_header'), ['arch_text', 'length_text'])
@@ -995,3 +1037,4 @@ def run(ctx):
     _r3(ctx)
     _r4(ctx)
     _r5(ctx)
+    _r6(ctx)
